@@ -100,7 +100,7 @@ PATHS = ['meta_set', 'meta_append', 'meta_extend', 'meta_add_item', 'meta_update
          # positions that list.insert clamps: a refused store must leave the grid as it was there too
          'insert_negative', 'insert_beyond_end',
          # rows handed over as one-shot iterables
-         'extend_generator', 'iadd_iterator']
+         'extend_generator', 'iadd_iterator', 'extend_grid', 'iadd_grid']
 
 
 # earlier activity of the same process (other grids, other versions): the gate of a grid must not depend on it.  Every
@@ -212,7 +212,7 @@ class GateSpec(H.Spec):
             if p in ('setitem', 'setitem_undeclared') and len(g) == 0:
                 continue
             if p in ('append', 'insert', 'extend', 'iadd', 'append_undeclared', 'extend_undeclared', 'insert_negative', 'insert_beyond_end',
-                     'extend_generator', 'iadd_iterator') and len(g) >= 2:
+                     'extend_generator', 'iadd_iterator', 'extend_grid', 'iadd_grid') and len(g) >= 2:
                 continue
             for k in KINDS:
                 ops.append((p, k))
@@ -266,6 +266,15 @@ class GateSpec(H.Spec):
             g.extend(r for r in [{'c': 1.0}, {'c': val}])
         elif p == 'iadd_iterator':
             g += iter([{'d': val}])
+        elif p in ('extend_grid', 'iadd_grid'):
+            # the rows come from another Grid object (a 3.0 grid that holds them legitimately)
+            donor = hs.Grid(version='3.0', columns=[('c', []), ('d', [])])
+            donor.append({'c': 1.0})
+            donor.append({'d': val})
+            if p == 'extend_grid':
+                g.extend(donor)
+            else:
+                g += donor
         elif p == 'insert_negative':
             g.insert(-1, {'c': val})
         elif p == 'insert_beyond_end':
@@ -305,10 +314,10 @@ class GateSpec(H.Spec):
                 # the grid now holds mislabelled data: the writers must still refuse it
                 self.writers(g, v, after, False, st, sig, case)
                 return False
-            if after != before and not (p in ('extend', 'extend_undeclared', 'extend_generator')):
+            if after != before and not (p in ('extend', 'extend_undeclared', 'extend_generator', 'extend_grid', 'iadd_grid')):
                 st.fail('refused-store-left-3.0-only-value-in-grid', sig, case, {'op': list(op), 'reachable_3.0_data': after})
                 return False
-            if [id(r) for r in g] != rows_before and p not in ('extend', 'extend_undeclared', 'iadd', 'extend_generator', 'iadd_iterator'):
+            if [id(r) for r in g] != rows_before and p not in ('extend', 'extend_undeclared', 'iadd', 'extend_generator', 'iadd_iterator', 'extend_grid', 'iadd_grid'):
                 st.fail('refused-store-changed-the-rows-of-the-grid', sig, case, {'op': list(op), 'rows_before': len(rows_before), 'rows_after': len(g)})
                 return False
         else:
